@@ -9097,6 +9097,13 @@ func (p *parser) visitStmts(stmts []js_ast.Stmt, kind stmtsKind) []js_ast.Stmt {
 			// statement, since that also means the identifier can't be renamed.
 			if p.currentScope.ContainsDirectEval || p.symbols[s.Fn.Name.Ref.InnerIndex].Flags.Has(ast.MustNotBeRenamed) {
 				if hoistedRef, ok := p.hoistedRefForSloppyModeBlockFn[s.Fn.Name.Ref]; ok {
+					// The hoisted identifier may already have been merged into another
+					// variable with the same name. The function declaration will now
+					// assign to that variable by name, so it can't be renamed either.
+					for link := hoistedRef; link != ast.InvalidRef; link = p.symbols[link.InnerIndex].Link {
+						p.symbols[link.InnerIndex].Flags |= ast.MustNotBeRenamed
+					}
+
 					// Merge the two identifiers back into a single one
 					p.symbols[hoistedRef.InnerIndex].Link = s.Fn.Name.Ref
 				}
